@@ -239,6 +239,16 @@ Proof.
   intros a b. apply reverse_cmp_neg.
 Qed.
 
+(* Index / Contains for an ARBITRARY element equality (float NaN is not == to itself: relation EPartial of CmpSel.v);
+   Equal / Compare for such elements are C10_equal_func_spec / C10_compare_func_spec at eq_of e / cmp3_by (lt_of e) *)
+Theorem C10_element_relations : forall eq s v,
+  index_by eq s v = spec_index eq s v /\ contains_by eq s v = existsb (eq v) s /\ index_by Z.eqb s v = index s v /\
+  (forall a, eq_of EPartial nan_code a = false /\ eq_of EPartial a nan_code = false /\
+             lt_of EPartial nan_code a = false /\ lt_of EPartial a nan_code = false /\ cmp3_by (lt_of EPartial) a nan_code = 0).
+Proof.
+  intros. split; [apply index_by_spec|split; [apply contains_by_spec|split; [apply index_by_native|apply partial_nan]]].
+Qed.
+
 (* non-vacuity: lt_full is a strict weak order in the sense of the hypotheses; the identity rounding with every
    rational representable meets the float hypotheses; a concrete input is sorted by the model *)
 Example C10_nonvacuous :
@@ -306,3 +316,4 @@ Print Assumptions C10_stable_checker.
 Print Assumptions C10_compare_func_spec.
 Print Assumptions C10_equal_func_spec.
 Print Assumptions C10_cmpsel_laws.
+Print Assumptions C10_element_relations.
